@@ -2,6 +2,7 @@ CONSTANTS
   Val = {v1, v2, v3}
   Stranger = {x1}
   MaxReq = 3
+  Units = 2
   ExpSet = {1, 2, 3}
   PenaltySet = {0, 2, 5}
   DtSet = {0, 1, 2, 3}
